@@ -15,6 +15,9 @@ mcvars == <<m, pc, sent, expired, up0>>
 
 \* near the start and near the end of the (scaled-down) counter space
 StartUpsDef == {<<0, 0>>, <<0, 3>>, <<1, 1>>, <<1, 2>>}
+\* with the real constants (16-bit wire counter, 32-bit counters): at the start, across the 16-bit roll-over and at
+\* the very end of the counter space
+StartUpsReal == {<<0, 0>>, <<0, 65534>>, <<65535, 65532>>, <<65535, 65533>>, <<65535, 65534>>}
 Key == <<1, 1, 1, 1, 1, 1, 1, 1, 1, 1, 1, 1, 1, 1, 1, 1>>
 M0(c) == [AfterAbp(InitMac("EU868", 14, 0), Key, Key, <<1, 2, 3, 4>>) EXCEPT !.sess.up = c]
 
@@ -93,6 +96,8 @@ IdleMeansConsumed == pc = "idle" /\ sent # <<>> /\ ~expired /\ Joined(m) => CntL
 NeverWraps == [][Joined(m') => ~CntLt(m'.sess.up, m.sess.up)]_mcvars
 
 Bound == Len(sent) <= 3
+\* (real constants: the downlink counter space is not small any more - a few accepted downlinks are enough)
+BoundReal == Len(sent) <= 3 /\ (m.sess.down = <<>> \/ (m.sess.down[1] = 0 /\ m.sess.down[2] <= 3))
 
 \* --- liveness (C04 at the design level: a procedure never hangs).  Under weak fairness of the procedure's own
 \* steps (the radio and the timer eventually answer), every procedure returns to the caller.
